@@ -437,6 +437,25 @@ def errors_case(rec, rng, tj, s, e, fill):
             pass
         except Exception as exc:
             rec.violation("placeholder-error", case, {"why": what, "exception": repr(exc)})
+    # an explicit template whose user placeholders differ from those of the fileset's path
+    try:
+        fs2 = make_fs(tj)
+        fs2.set_placeholders(orbit=r"\d{5}")            # registered, but not part of the path
+        try:
+            n = fs2.get_filename((s, e), template="o_{year}{month}{day}_{orbit}.h5", fill=fill)
+            rec.violation("placeholder-error", case,
+                          {"why": "unfilled placeholder of an explicit template did not raise", "name": n})
+        except fsmod.UnfilledPlaceholderError:
+            pass
+        # ... and a complete explicit template that does not use the path's (unfilled) user placeholders
+        n = fs2.get_filename((s, e), template="plain_{year}{month}{day}T{hour}{minute}{second}.dat")
+        want = "plain_%04d%02d%02dT%02d%02d%02d.dat" % (s.year, s.month, s.day, s.hour, s.minute, s.second)
+        if n != want:
+            rec.violation("name-render", case, {"got": n, "want": want, "where": "explicit template"})
+        rec.count("errors.explicit_template_calls")
+    except Exception as exc:
+        rec.violation("placeholder-error", case, {"why": "explicit template", "exception": repr(exc),
+                                                  "trace": traceback.format_exc()[-600:]})
     if tj["users"]:
         try:
             n = fs.get_filename((s, e))
